@@ -28,6 +28,18 @@ def oval (n : Nat) : Option X → Val | none => .none | some e => e.val n
 def ofuel : Option X → Nat | none => 0 | some e => e.fuel
 def OWF (o : Option X) : Prop := ∀ e, o = some e → WFX 0 e
 
+/-- a `#pragma` line as the lexer delivers it: `PPPRAGMA`, then `PPPRAGMASTR` if there is text -/
+def pragmaFlat : Option String → List Tk
+  | none => [("PPPRAGMA", "pragma")]
+  | some str => [("PPPRAGMA", "pragma"), ("PPPRAGMASTR", str)]
+def pragmaNtoks : Option String → Nat
+  | none => 1
+  | some _ => 2
+/-- the `Pragma` node: its coordinate is the text's, or the directive's when there is no text -/
+def pragmaVal (n : Nat) : Option String → Val
+  | none => mk .Pragma (tc n) [.str ""]
+  | some str => mk .Pragma (tc (n + 1)) [.str str]
+
 mutual
 inductive S where
   | expr (e : X)
@@ -51,6 +63,7 @@ inductive SL where
   | nil
   | cons (s : S) (rest : SL)
   | consD (dc : Dcl) (rest : SL)
+  | consP (p : Option String) (rest : SL)     -- a `#pragma` line as a block item
 end
 
 mutual
@@ -77,6 +90,7 @@ def SL.ntoks : SL → Nat
   | .nil => 0
   | .cons s r => s.ntoks + r.ntoks
   | .consD dc r => dc.ntoks + r.ntoks
+  | .consP p r => pragmaNtoks p + r.ntoks
 end
 
 mutual
@@ -105,6 +119,7 @@ def SL.flat : SL → List Tk
   | .nil => []
   | .cons s r => s.flat ++ r.flat
   | .consD dc r => dc.flat ++ r.flat
+  | .consP p r => pragmaFlat p ++ r.flat
 end
 
 
@@ -116,6 +131,7 @@ def S.val (n : Nat) : S → Val
   | .block .nil => mk .Compound (tc n) [.none]
   | .block (.cons s r) => mk .Compound (tc n) [.list (SL.vals (n + 1) (.cons s r))]
   | .block (.consD dc r) => mk .Compound (tc n) [.list (SL.vals (n + 1) (.consD dc r))]
+  | .block (.consP p r) => mk .Compound (tc n) [.list (SL.vals (n + 1) (.consP p r))]
   | .ifThen c t => mk .If (tc n) [c.val (n + 2), t.val (n + 2 + c.ntoks + 1), .none]
   | .ifElse c t f => mk .If (tc n) [c.val (n + 2), t.val (n + 2 + c.ntoks + 1),
       f.val (n + 2 + c.ntoks + 1 + t.ntoks + 1)]
@@ -138,6 +154,7 @@ def SL.vals (n : Nat) : SL → List Val
   | .nil => []
   | .cons s r => s.val n :: SL.vals (n + s.ntoks) r
   | .consD dc r => dc.vals n ++ SL.vals (n + dc.ntoks) r
+  | .consP p r => pragmaVal n p :: SL.vals (n + pragmaNtoks p) r
 end
 
 /-- the statement ends with an `if` that has no `else` (so a following `else` would attach to it) -/
@@ -179,6 +196,7 @@ inductive WFSL (ty : String → Bool) : SL → Prop
   | nil : WFSL ty .nil
   | cons (s r) : WFS ty s → WFSL ty r → WFSL ty (.cons s r)
   | consD (dc r) : WFDcl dc → (∀ x ∈ dc.names, ty x = false) → WFSL ty r → WFSL ty (.consD dc r)
+  | consP (p r) : WFSL ty r → WFSL ty (.consP p r)
 end
 
 
@@ -302,6 +320,7 @@ def SL.fuel : SL → Nat
   | .nil => 1
   | .cons s r => s.fuel + r.fuel + 2
   | .consD dc r => dc.fuel + r.fuel + 3
+  | .consP _ r => r.fuel + 4
 end
 
 def stmtHeads : List String :=
@@ -368,6 +387,7 @@ theorem SL.flat_length : ∀ l : SL, l.flat.length = l.ntoks
   | .nil => rfl
   | .cons s r => by simp [SL.flat, SL.ntoks, S.flat_length s, SL.flat_length r]
   | .consD dc r => by simp [SL.flat, SL.ntoks, Dcl.flat_length, SL.flat_length r]
+  | .consP p r => by cases p <;> simp [SL.flat, SL.ntoks, pragmaFlat, pragmaNtoks, SL.flat_length r] <;> omega
 end
 
 theorem S.val_node : ∀ (st : S) (n : Nat), ∃ c co fs, st.val n = .node c co fs
@@ -378,6 +398,7 @@ theorem S.val_node : ∀ (st : S) (n : Nat), ∃ c co fs, st.val n = .node c co 
   | .block .nil, _ => ⟨_, _, _, rfl⟩
   | .block (.cons _ _), _ => ⟨_, _, _, rfl⟩
   | .block (.consD _ _), _ => ⟨_, _, _, rfl⟩
+  | .block (.consP _ _), _ => ⟨_, _, _, rfl⟩
   | .forD .., _ => ⟨_, _, _, rfl⟩
   | .ifThen .., _ => ⟨_, _, _, rfl⟩
   | .ifElse .., _ => ⟨_, _, _, rfl⟩
@@ -723,6 +744,31 @@ theorem SL.head_not_else (l : SL) (hwl : WFSL env.ty l) (rest : List Tk) :
     obtain ⟨t, r', hfl, _, hne, _⟩ := Dcl.head hwd
     simp only [SL.flat, hfl, List.cons_append, List.cons.injEq] at h
     rw [h.1] at hne; exact hne
+  | consP p l' _ =>
+    cases p <;> simp only [SL.flat, pragmaFlat, List.cons_append, List.nil_append, List.cons.injEq, Prod.mk.injEq] at h <;>
+      (rw [← h.1.1]; decide)
+
+/-- no block item starts with the text of a pragma -/
+theorem SL.head_not_pragmastr (l : SL) (hwl : WFSL env.ty l) (t : Tk) (r : List Tk) (h : l.flat = t :: r) :
+    t.1 ≠ "PPPRAGMASTR" := by
+  cases hwl with
+  | nil => simp [SL.flat] at h
+  | cons st l' hws _ =>
+    obtain ⟨t', r', hfl, hth⟩ := S.head st hws
+    simp only [SL.flat, hfl, List.cons_append, List.cons.injEq] at h
+    rw [← h.1]
+    intro hc
+    have := stmtHeads_facts t'.1 hth
+    rw [hc] at hth
+    revert hth; decide
+  | consD dc l' hwd _ _ =>
+    obtain ⟨t', r', hfl, hds, _, _⟩ := Dcl.head hwd
+    simp only [SL.flat, hfl, List.cons_append, List.cons.injEq] at h
+    rw [← h.1]
+    intro hc; rw [hc] at hds; revert hds; decide
+  | consP p l' _ =>
+    cases p <;> simp only [SL.flat, pragmaFlat, List.cons_append, List.nil_append, List.cons.injEq] at h <;>
+      (rw [← h.1]; decide)
 
 theorem slok_nil : SLOK env .nil := by
   intro acc s rest F _ hs hF
@@ -783,6 +829,74 @@ theorem slok_consD (dc : Dcl) (r : SL) (ihr : SLOK env r) : SLOK env (.consD dc 
     show pBlockItemListLoop (run G) acc s = _
     simp [pBlockItemListLoop, bnd, h1, h2, startsDeclaration, pur, hin, hnr, h3, h4, SL.vals]
 
+/-- a `#pragma` line between block items: `_parse_statement` hands it to `_parse_pragma_directive` -/
+theorem slok_consP (p : Option String) (r : SL) (ihr : SLOK env r) : SLOK env (.consP p r) := by
+  intro acc s rest F hwf hs hF
+  cases hwf with
+  | consP _ _ hwr =>
+    obtain ⟨G, rfl⟩ : ∃ G, F = G + 3 := ⟨F - 3, by simp only [SL.fuel] at hF; omega⟩
+    simp only [SL.fuel] at hF
+    cases p with
+    | none =>
+      have hs0 : SeesT env s (("PPPRAGMA", "pragma") :: (r.flat ++ ("RBRACE", "}") :: rest)) := by
+        simpa [SL.flat, pragmaFlat, List.append_assoc] using hs
+      obtain ⟨s1, h1, hs1, hi1, _⟩ := peekType_spec s _ hs0
+      obtain ⟨s2, h2, hs2, hi2, _⟩ := peekType_spec s1 _ hs1
+      obtain ⟨s3, h3, hs3, hi3, _⟩ := peekType_spec s2 _ hs2
+      obtain ⟨s4, h4, hs4, hi4, _⟩ := peekType_spec s3 _ hs3
+      obtain ⟨s5, h5, hs5, _, hi5, _⟩ := advance_spec s4 "PPPRAGMA" "pragma" _ hs4
+      -- the token after the directive is not its text
+      obtain ⟨k, v, r', hhd, hk⟩ : ∃ k v r', r.flat ++ ("RBRACE", "}") :: rest = (k, v) :: r' ∧ k ≠ "PPPRAGMASTR" := by
+        cases hfl : r.flat with
+        | nil => exact ⟨_, _, _, rfl, by decide⟩
+        | cons t r'' =>
+          refine ⟨t.1, t.2, r'' ++ ("RBRACE", "}") :: rest, rfl, ?_⟩
+          exact SL.head_not_pragmastr r hwr t r'' hfl
+      rw [hhd] at hs5
+      obtain ⟨s6, h6, hs6, hi6, _⟩ := peekType_spec s5 _ hs5
+      rw [← hhd] at hs6
+      obtain ⟨s7, h7, hs7, hi7⟩ := ihr (acc ++ [pragmaVal s.idx none]) s6 rest (G + 2) hwr hs6 (by omega)
+      refine ⟨s7, ?_, hs7, by simp only [SL.ntoks, pragmaNtoks]; omega⟩
+      have e6 : s6.idx = s.idx + 1 := by omega
+      rw [e6] at h7
+      have e4 : s4.idx = s.idx := by omega
+      have hkb : ((some k : Option String) == some "PPPRAGMASTR") = false := by simpa using hk
+      have hdir : run (G + 1) .pragmaDirective s3 = .ok (pragmaVal s.idx none) s6 := by
+        show pPragmaDirective (run G) s3 = _
+        simp [pPragmaDirective, bnd, h4, h5, h6, hk, pur, tokCoord, tc, e4, pragmaVal]
+      have hstmt : run (G + 2) .statement s2 = .ok (pragmaVal s.idx none) s6 := by
+        show pStatement (run (G + 1)) s2 = _
+        simp [pStatement, bnd, h3, andM, pur, inSet, hdir]
+      show pBlockItemListLoop (run (G + 2)) acc s = _
+      have hnd : inSet (some "PPPRAGMA") declStart = false := by decide
+      simp only [pragmaVal, mk] at hstmt h7
+      simp [pBlockItemListLoop, bnd, h1, h2, startsDeclaration, pur, hnd, hstmt, pragmaVal, mk, h7, SL.vals, pragmaNtoks]
+    | some str =>
+      have hs0 : SeesT env s (("PPPRAGMA", "pragma") :: ("PPPRAGMASTR", str) :: (r.flat ++ ("RBRACE", "}") :: rest)) := by
+        simpa [SL.flat, pragmaFlat, List.append_assoc] using hs
+      obtain ⟨s1, h1, hs1, hi1, _⟩ := peekType_spec s _ hs0
+      obtain ⟨s2, h2, hs2, hi2, _⟩ := peekType_spec s1 _ hs1
+      obtain ⟨s3, h3, hs3, hi3, _⟩ := peekType_spec s2 _ hs2
+      obtain ⟨s4, h4, hs4, hi4, _⟩ := peekType_spec s3 _ hs3
+      obtain ⟨s5, h5, hs5, _, hi5, _⟩ := advance_spec s4 "PPPRAGMA" "pragma" _ hs4
+      obtain ⟨s6, h6, hs6, hi6, _⟩ := peekType_spec s5 _ hs5
+      obtain ⟨s6', h6', hs6', _, hi6', _⟩ := advance_spec s6 "PPPRAGMASTR" str _ hs6
+      obtain ⟨s7, h7, hs7, hi7⟩ := ihr (acc ++ [pragmaVal s.idx (some str)]) s6' rest (G + 2) hwr hs6' (by omega)
+      refine ⟨s7, ?_, hs7, by simp only [SL.ntoks, pragmaNtoks]; omega⟩
+      have e6 : s6'.idx = s.idx + 2 := by omega
+      rw [e6] at h7
+      have e5 : s6.idx = s.idx + 1 := by omega
+      have hdir : run (G + 1) .pragmaDirective s3 = .ok (pragmaVal s.idx (some str)) s6' := by
+        show pPragmaDirective (run G) s3 = _
+        simp [pPragmaDirective, bnd, h4, h5, h6, h6', pur, tokCoord, tc, e5, pragmaVal]
+      have hstmt : run (G + 2) .statement s2 = .ok (pragmaVal s.idx (some str)) s6' := by
+        show pStatement (run (G + 1)) s2 = _
+        simp [pStatement, bnd, h3, andM, pur, inSet, hdir]
+      show pBlockItemListLoop (run (G + 2)) acc s = _
+      have hnd : inSet (some "PPPRAGMA") declStart = false := by decide
+      simp only [pragmaVal, mk] at hstmt h7
+      simp [pBlockItemListLoop, bnd, h1, h2, startsDeclaration, pur, hnd, hstmt, pragmaVal, mk, h7, SL.vals, pragmaNtoks]
+
 theorem sok_block (items : SL) (ih : SLOK env items) : SOK env (.block items) := by
   intro s rest F hwf hs _ hF
   cases hwf with
@@ -824,6 +938,18 @@ theorem sok_block (items : SL) (ih : SLOK env items) : SOK env (.block items) :=
         intro k v r'' h
         simp only [SL.flat, hfl, List.cons_append, List.append_assoc, List.cons.injEq] at h
         rw [h.1] at hnr; exact hnr)
+      obtain ⟨s4, h4, hs4, hi4⟩ := ih [] s3 rest G hwi hs3 (by omega)
+      obtain ⟨s5, h5, hs5, hi5⟩ := expect_same s4 "RBRACE" "}" rest hs4
+      refine ⟨s5, ?_, hs5, by simp only [S.ntoks]; omega⟩
+      have e3 : s3.idx = s.idx + 1 := by omega
+      rw [e3] at h4
+      show pCompoundStatement (run G) s1 = _
+      simp [pCompoundStatement, bnd, h2, h3, h4, h5, pur, tokCoord, tc, hi1, S.val]
+    | consP p r =>
+      obtain ⟨s3, h3, hs3, hi3⟩ := accept_other s2 _ "RBRACE" hs2 (by
+        intro k v r'' h
+        cases p <;> simp only [SL.flat, pragmaFlat, List.cons_append, List.nil_append, List.append_assoc, List.cons.injEq,
+          Prod.mk.injEq] at h <;> (rw [← h.1.1]; decide))
       obtain ⟨s4, h4, hs4, hi4⟩ := ih [] s3 rest G hwi hs3 (by omega)
       obtain ⟨s5, h5, hs5, hi5⟩ := expect_same s4 "RBRACE" "}" rest hs4
       refine ⟨s5, ?_, hs5, by simp only [S.ntoks]; omega⟩
@@ -931,6 +1057,7 @@ theorem sval_shape : ∀ (st : S) (n : Nat), isLabelV (st.val n) = true → ∃ 
   | .block .nil, _, h => by cases h
   | .block (.cons _ _), _, h => by cases h
   | .block (.consD _ _), _, h => by cases h
+  | .block (.consP _ _), _, h => by cases h
   | .forD .., _, h => by cases h
   | .ifThen .., _, h => by cases h
   | .ifElse .., _, h => by cases h
@@ -973,6 +1100,12 @@ theorem svals_shaped : ∀ (l : SL) (n : Nat), ParserShaped (SL.vals n l)
     · obtain ⟨co, fs, rfl⟩ := Dcl.vals_decl dc n v hv
       cases hl
     · exact svals_shaped r _ v hv hl
+  | .consP p r, n => by
+    intro v hv hl
+    simp only [SL.vals, List.mem_cons] at hv
+    rcases hv with rfl | hv
+    · cases p <;> cases hl
+    · exact svals_shaped r _ v hv hl
 
 theorem xval_not_compound (e : X) : ∀ n : Nat, (e.val n).isCls .Compound = false := by
   induction e with
@@ -989,6 +1122,7 @@ theorem fixSwitch_sval (co : Option Coord) (cond : Val) (b : S) (n : Nat) (s : P
     | nil => exact fixSwitch_empty co _ cond s
     | cons st r => exact fixSwitch_block co _ cond _ (svals_shaped (.cons st r) _) s
     | consD dc r => exact fixSwitch_block co _ cond _ (svals_shaped (.consD dc r) _) s
+    | consP p r => exact fixSwitch_block co _ cond _ (svals_shaped (.consP p r) _) s
   | expr e => exact fixSwitch_other co cond _ (xval_not_compound e n) s
   | ret e => cases e <;> exact fixSwitch_other co cond _ rfl s
   | empty => exact fixSwitch_other co cond _ rfl s
@@ -1213,6 +1347,7 @@ theorem all_sl : ∀ l : SL, SLOK env l
   | .nil => slok_nil
   | .cons st r => slok_cons st r (all_s st) (all_sl r)
   | .consD dc r => slok_consD dc r (all_sl r)
+  | .consP p r => slok_consP p r (all_sl r)
 end
 
 /-- **Statements nest exactly as the C grammar says.** For every statement `st` of `S` (any size,
